@@ -101,6 +101,9 @@ func checkC19(w *World, st core.Status, r *RunResult) []Violation {
 	}
 	for _, o := range w.Obs {
 		p := o.Plan
+		if transportLimit(o, r) {
+			continue
+		}
 		tag := cfgTag(w, o)
 		add := func(class, msg string) {
 			vs = append(vs, Violation{Class: "C19/" + class + "/" + tag, Msg: p.ID + ": " + msg})
@@ -139,7 +142,9 @@ func checkC19(w *World, st core.Status, r *RunResult) []Violation {
 			if len(o.Recovered) != 0 {
 				add("abort-sentinel-recovered", "recovery function was called for http.ErrAbortHandler")
 			}
-			if ex == nil || ex.Panic != http.ErrAbortHandler { //nolint:errorlint
+			if w.real != nil {
+				// calibration world: net/http swallows the sentinel itself
+			} else if ex == nil || ex.Panic != http.ErrAbortHandler { //nolint:errorlint
 				var got any
 				if ex != nil {
 					got = ex.Panic
